@@ -452,6 +452,34 @@ impl TestDriver for DriverOverrideW {
     }
 }
 
+thread_local! {
+    /// the script behind the zero-sized driver below
+    static ZST_SCRIPT: std::cell::RefCell<Option<Script>> = const { std::cell::RefCell::new(None) };
+}
+
+/// A driver whose TYPE has no size (its state lives elsewhere - here in a thread-local, in real life in a global or
+/// behind an FFI handle): it is a driver like any other.
+struct DriverZst;
+
+impl TestDriver for DriverZst {
+    type Error = DrvError;
+    fn write_input_and_read_output(&mut self, inputs: &[InputEntry<'_>]) -> Result<Vec<OutputEntry<'_>>, DrvError> {
+        let (outs, sigs) = ZST_SCRIPT.with(|z| {
+            let mut z = z.borrow_mut();
+            let sc = z.as_mut().expect("script installed");
+            let outs = sc.answer(inputs, "RW");
+            (outs, sc.sigs.clone())
+        });
+        let outs = outs?;
+        // the entries must borrow signals that outlive the call: leak a copy of the table (a few hundred bytes per call, test code)
+        let sigs: &'static [Signal] = Box::leak(sigs.into_boxed_slice());
+        Ok(outs.into_iter().map(|(si, value)| OutputEntry { signal: &sigs[si], value }).collect())
+    }
+    fn write_input(&mut self, inputs: &[InputEntry<'_>]) -> Result<(), DrvError> {
+        ZST_SCRIPT.with(|z| z.borrow_mut().as_mut().expect("script installed").answer(inputs, "W").map(|_| ()))
+    }
+}
+
 // ------------------------------------------------------------------ printing results
 
 fn parse_err_line(err: &digital_test_runner::errors::ParseError, src: &str) -> String {
@@ -1748,7 +1776,18 @@ fn run_case(c: &Case) -> String {
                                         REENTRANT.with(|r| r.set(false));
                                         b
                                     };
-                                    let verdict = [("the used test", direct), ("a clone of the used test", run_one(&used)), ("a fresh test with a re-entrant driver", reentrant)]
+                                    // a driver whose type is zero-sized (only for drivers with their own write_input)
+                                    let zst = if c2.wdefault {
+                                        a.clone()
+                                    } else {
+                                        let mut b = String::new();
+                                        let sh = Sh::default();
+                                        ZST_SCRIPT.with(|z| *z.borrow_mut() = Some(Script::new(&c2, &fresh.signals, sh.clone())));
+                                        run_dynamic(&c2, &fresh, &mut DriverZst, &sh, &mut b);
+                                        ZST_SCRIPT.with(|z| *z.borrow_mut() = None);
+                                        b
+                                    };
+                                    let verdict = [("the used test", direct), ("a clone of the used test", run_one(&used)), ("a fresh test with a re-entrant driver", reentrant), ("a fresh test with a zero-sized driver", zst)]
                                         .iter()
                                         .find_map(|(who, b)| {
                                             if *b == a {
